@@ -425,6 +425,25 @@ pub proof fn lemma_remove_policy(w: World, id: u32, policy: Address, ok: bool)
     let r = sa_rule(w, id);
     lemma_fp_swap(w, w2, r.context_type, r.signers@, r.policies@, r.signers@, p1);
 }
+pub proof fn lemma_remove_rule_abs(w: World, id: u32, fin: Seq<Call>)
+    requires remove_rule_guard(w, id), last_idx(sa_ids(w, sa_meta(w, id).unwrap().context_type), id) >= 0,
+    ensures rule_removed(w, remove_rule_post(w, id, fin), id),
+{
+    broadcast use sdk_store;
+    let w2 = remove_rule_post(w, id, fin);
+    let ct = sa_meta(w, id).unwrap().context_type;
+    let ids = sa_ids(w, ct);
+    assert(sa_ids(w2, ct) =~= ids.remove(last_idx(ids, id)));
+    assert(!sa_exists(w2, id));
+    assert(rules_same_except(w, w2, id));
+    assert(ids_same_except(w, w2, ct));
+    let v = ((sa_count(w) - 1) as u32).sv();
+    assert(w2.instance == iset(w, SmartAccountStorageKey::Count, v).instance);
+    assert(iget(w2, SmartAccountStorageKey::NextId) == iget(iset(w, SmartAccountStorageKey::Count, v), SmartAccountStorageKey::NextId));
+    assert(iget(w2, SmartAccountStorageKey::Count) == iget(iset(w, SmartAccountStorageKey::Count, v), SmartAccountStorageKey::Count));
+    assert(sa_next_id(w2) == sa_next_id(w));
+    assert(sa_count(w2) == sa_count(w) - 1);
+}
 pub proof fn lemma_remove_rule(w: World, id: u32, fin: Seq<Call>)
     requires inv_ids(w), inv_rules(w), remove_rule_guard(w, id),
     ensures ({
@@ -438,25 +457,12 @@ pub proof fn lemma_remove_rule(w: World, id: u32, fin: Seq<Call>)
         &&& inv_ids(w2) && inv_rules(w2)
     }),
 {
-    broadcast use sdk_store;
     let w2 = remove_rule_post(w, id, fin);
     let ct = sa_meta(w, id).unwrap().context_type;
     let ids = sa_ids(w, ct);
     lemma_last_idx_none(ids, id);
     assert(ids.contains(id));
-    assert(sa_ids(w2, ct) =~= ids.remove(last_idx(ids, id)));
-    assert(last_idx(ids, id) >= 0);
-    assert(!sa_exists(w2, id));
-    assert(rules_same_except(w, w2, id));
-    assert(ids_same_except(w, w2, ct));
-    let v = ((sa_count(w) - 1) as u32).sv();
-    assert(w2.instance == iset(w, SmartAccountStorageKey::Count, v).instance);
-    assert(iget(w2, SmartAccountStorageKey::NextId) == iget(iset(w, SmartAccountStorageKey::Count, v), SmartAccountStorageKey::NextId));
-    assert(iget(w2, SmartAccountStorageKey::Count) == iget(iset(w, SmartAccountStorageKey::Count, v), SmartAccountStorageKey::Count));
-    assert(sa_next_id(w2) == sa_next_id(w));
-    assert(sa_count(w2) == sa_count(w) - 1);
-    assert(iget(w2, SmartAccountStorageKey::Count).is_some());
-    assert(rule_removed(w, w2, id));
+    lemma_remove_rule_abs(w, id, fin);
     lemma_remove_inv(w, w2, id);
     assert(!sa_ids(w2, ct).contains(id)) by {
         if sa_ids(w2, ct).contains(id) {
@@ -464,4 +470,112 @@ pub proof fn lemma_remove_rule(w: World, id: u32, fin: Seq<Call>)
             assert(sa_exists(w2, sa_ids(w2, ct)[i]));
         }
     }
+}
+
+// ---- histories: the invariant holds after any sequence of registry edits, NextId never decreases ----
+pub enum RegOp {
+    AddRule { ct: ContextRuleType, name: String, vu: Option<u32>, signers: Seq<Signer>, pol: Seq<(Address, Val)> },
+    UpdateName { id: u32, name: String },
+    UpdateValidUntil { id: u32, vu: Option<u32> },
+    RemoveRule { id: u32, fin: Seq<Call> },
+    AddSigner { id: u32, signer: Signer },
+    RemoveSigner { id: u32, signer: Signer },
+    AddPolicy { id: u32, policy: Address, param: Val },
+    RemovePolicy { id: u32, policy: Address, ok: bool },
+}
+/// what must have held for the edit to return (contracts `*.guard` of the extracted functions)
+pub open spec fn op_guard(w: World, op: RegOp) -> bool {
+    match op {
+        RegOp::AddRule { ct, name, vu, signers, pol } => add_rule_guard(w, ct, vu, signers, pol),
+        RegOp::UpdateName { id, name } => sa_exists(w, id),
+        RegOp::UpdateValidUntil { id, vu } => upd_valid_guard(w, id, vu),
+        RegOp::RemoveRule { id, fin } => remove_rule_guard(w, id),
+        RegOp::AddSigner { id, signer } => add_signer_guard(w, id, signer),
+        RegOp::RemoveSigner { id, signer } => remove_signer_guard(w, id, signer),
+        RegOp::AddPolicy { id, policy, param } => add_policy_guard(w, id, policy),
+        RegOp::RemovePolicy { id, policy, ok } => remove_policy_guard(w, id, policy),
+    }
+}
+/// the successor state (contracts `*.exact`), up to the opaque state of other contracts
+pub open spec fn op_post(w: World, op: RegOp) -> World {
+    match op {
+        RegOp::AddRule { ct, name, vu, signers, pol } => add_rule_post(w, ct, name, vu, signers, pol),
+        RegOp::UpdateName { id, name } => upd_name_post(w, id, name),
+        RegOp::UpdateValidUntil { id, vu } => upd_valid_post(w, id, vu),
+        RegOp::RemoveRule { id, fin } => remove_rule_post(w, id, fin),
+        RegOp::AddSigner { id, signer } => add_signer_post(w, id, signer),
+        RegOp::RemoveSigner { id, signer } => remove_signer_post(w, id, signer),
+        RegOp::AddPolicy { id, policy, param } => add_policy_post(w, id, policy, param),
+        RegOp::RemovePolicy { id, policy, ok } => remove_policy_post(w, id, policy, ok),
+    }
+}
+pub open spec fn reg_step(w: World, w2: World, op: RegOp) -> bool { op_guard(w, op) && eq_but_ext(w2, op_post(w, op)) }
+/// tr[0] --ops[0]--> tr[1] --ops[1]--> ... (other entry points of the account do not write the registry keys)
+pub open spec fn reg_history(tr: Seq<World>, ops: Seq<RegOp>) -> bool {
+    tr.len() == ops.len() + 1 && forall|i: int| 0 <= i < ops.len() ==> reg_step(#[trigger] tr[i], tr[i + 1], ops[i])
+}
+pub proof fn lemma_count_below_frame(w: World, w2: World, n: int)
+    requires w2.persistent == w.persistent,
+    ensures count_below(w2, n) == count_below(w, n),
+    decreases n
+{
+    if n > 0 { lemma_count_below_frame(w, w2, n - 1); }
+}
+pub proof fn lemma_inv_frame(w: World, w2: World)
+    requires w2.persistent == w.persistent, w2.instance == w.instance, inv_ids(w), inv_rules(w),
+    ensures inv_ids(w2), inv_rules(w2),
+{
+    lemma_count_below_frame(w, w2, sa_next_id(w) as int);
+    assert forall|t: ContextRuleType| #[trigger] sa_ids(w2, t) == sa_ids(w, t) by {}
+    assert forall|id: u32| #[trigger] sa_exists(w2, id) == sa_exists(w, id) by {}
+}
+pub proof fn lemma_reg_step(w: World, w2: World, op: RegOp)
+    requires inv_ids(w), inv_rules(w), reg_step(w, w2, op),
+    ensures
+        //@@ C20:lemma.step.keeps_invariant
+        inv_ids(w2) && inv_rules(w2),
+        //@@ C20:lemma.step.next_id_monotone
+        sa_next_id(w) <= sa_next_id(w2),
+        //@@ C20:lemma.step.stored_ids_stay_below_next_id
+        forall|id: u32| #[trigger] sa_exists(w2, id) ==> id < sa_next_id(w2),
+{
+    let p = op_post(w, op);
+    match op {
+        RegOp::AddRule { ct, name, vu, signers, pol } => { lemma_add_rule_inv(w, ct, name, vu, signers, pol); }
+        RegOp::UpdateName { id, name } => { lemma_upd_meta(w, id, name, sa_meta(w, id).unwrap().valid_until); }
+        RegOp::UpdateValidUntil { id, vu } => { lemma_upd_meta(w, id, sa_meta(w, id).unwrap().name, vu); }
+        RegOp::RemoveRule { id, fin } => { lemma_remove_rule(w, id, fin); }
+        RegOp::AddSigner { id, signer } => { lemma_add_signer(w, id, signer); }
+        RegOp::RemoveSigner { id, signer } => { lemma_remove_signer(w, id, signer); }
+        RegOp::AddPolicy { id, policy, param } => { lemma_add_policy(w, id, policy, param); }
+        RegOp::RemovePolicy { id, policy, ok } => { lemma_remove_policy(w, id, policy, ok); }
+    }
+    assert(sa_next_id(w) <= sa_next_id(p));
+    lemma_inv_frame(p, w2);
+    assert(sa_next_id(w2) == sa_next_id(p));
+}
+pub proof fn lemma_reg_history(tr: Seq<World>, ops: Seq<RegOp>, i: int)
+    requires reg_history(tr, ops), inv_ids(tr[0]), inv_rules(tr[0]), 0 <= i <= ops.len(),
+    ensures
+        //@@ C20:lemma.history.invariant_after_any_edit_sequence
+        inv_ids(tr[i]) && inv_rules(tr[i]),
+        //@@ C20:lemma.history.ids_never_reused
+        sa_next_id(tr[0]) <= sa_next_id(tr[i]),
+    decreases i
+{
+    if i > 0 {
+        lemma_reg_history(tr, ops, i - 1);
+        lemma_reg_step(tr[i - 1], tr[i], ops[i - 1]);
+    }
+}
+/// the invariant is satisfiable: a freshly deployed account (empty stores) has it
+pub proof fn lemma_inv_empty(w: World)
+    requires w.persistent == Map::<SV, SV>::empty(), w.instance == Map::<SV, SV>::empty(),
+    ensures
+        //@@ C20:lemma.invariant_witness
+        sa_inv(w),
+{
+    assert forall|t: ContextRuleType| #[trigger] sa_ids(w, t) == Seq::<u32>::empty() by {}
+    assert(sa_next_id(w) == 0 && sa_count(w) == 0);
+    assert(count_below(w, 0) == 0);
 }
